@@ -29,6 +29,7 @@ type loopTrack struct {
 	lsEmpty       bool // the LS transaction that ended at the current yield point recorded nothing
 	txnAtRelease  int64
 	appSinceStore bool
+	coveredBySend bool // an application change happened before the dump of the send in progress
 	stores        int
 	startupStore  bool // the next store is the start-up one
 }
@@ -340,21 +341,49 @@ func trackApp(l *loopInst, ops string) {
 	if ops == "-" {
 		return
 	}
-	for _, op := range strings.Split(ops, ",") {
-		f := strings.Split(op, ":")
-		if len(f) < 3 || string(mustUnhx(f[1])) != trackedDBI {
-			continue
-		}
-		switch f[0] {
-		case "p":
-			t.writes[string(mustUnhx(f[2]))] = &trackedWrite{val: mustUnhx(f[3]), tag: t.iter, sym: lastSym, race: t.lsEmpty && (l.at == "load.afterTxn" || l.at == "send.afterTxn"), point: l.at}
-		case "d":
-			if !l.native {
-				t.writes[string(mustUnhx(f[2]))] = &trackedWrite{del: true, tag: t.iter, sym: lastSym, race: t.lsEmpty && (l.at == "load.afterTxn" || l.at == "send.afterTxn"), point: l.at}
-			} else {
+	if !l.started || l.exited {
+		// writes made while the syncer is down are outside the steady-state properties
+		for _, op := range strings.Split(ops, ",") {
+			f := strings.Split(op, ":")
+			if len(f) >= 3 && (f[0] == "p" || f[0] == "d") && string(mustUnhx(f[1])) == trackedDBI {
 				delete(t.writes, string(mustUnhx(f[2])))
 			}
 		}
+		return
 	}
-	t.appSinceStore = true
+	logical, app, err := logicalOf(l)
+	if err != nil {
+		return
+	}
+	race := t.lsEmpty && (l.at == "load.afterTxn" || l.at == "send.afterTxn")
+	changed := false
+	for _, op := range strings.Split(ops, ",") {
+		f := strings.Split(op, ":")
+		if len(f) < 3 || (f[0] != "p" && f[0] != "d") || string(mustUnhx(f[1])) != trackedDBI {
+			continue
+		}
+		k := string(mustUnhx(f[2]))
+		switch f[0] {
+		case "p":
+			// only what really is in the application's DBI now counts as its committed write
+			if cur, ok := app[k]; ok && bytes.Equal(cur, mustUnhx(f[3])) {
+				t.writes[k] = &trackedWrite{val: mustUnhx(f[3]), tag: t.iter, sym: lastSym, race: race, point: l.at}
+				changed = true
+			}
+		case "d":
+			if _, still := app[k]; still {
+				continue
+			}
+			changed = true
+			// a deletion Lightning Stream can know about: the key was live in the shadow (non-native)
+			if sv, ok := logical[k]; !l.native && ok && !sv.del {
+				t.writes[k] = &trackedWrite{del: true, tag: t.iter, sym: lastSym, race: race, point: l.at}
+			} else {
+				delete(t.writes, k)
+			}
+		}
+	}
+	if changed {
+		t.appSinceStore = true
+	}
 }
